@@ -45,7 +45,10 @@ var (
 const (
 	hangCapC13     = 5 * time.Minute // a hanging request times out after this long
 	knownKeyC13    = "C13:refresh-blocked-in-retry"
-	staleAfterC13  = 30 * time.Minute // == staleLockTimeout (asserted in the test)
+	deadlockKeyC13 = "C13:refresh-monitor-deadlock"
+	slowKeyC13     = "C13:monitor-counts-from-refresh-completion"
+	monitorDueC13  = 22*time.Minute + 30*time.Second // production refreshabilityTimeout (deliberately not read from lockerInst)
+	staleAfterC13  = 30 * time.Minute                // == staleLockTimeout (asserted in the test)
 	workloadGapC13 = time.Minute
 )
 
@@ -185,11 +188,12 @@ type vHistC13 struct {
 	start time.Time
 	sc    *vScenarioC13
 
-	lockCtx   context.Context // set once LockRepo returned
-	finishing bool
-	finishAt  time.Duration
-	cancelAt  time.Duration
-	cancelled bool
+	lockCtx    context.Context // set once LockRepo returned
+	acquiredAt time.Duration
+	finishing  bool
+	finishAt   time.Duration
+	cancelAt   time.Duration
+	cancelled  bool
 
 	files    map[backend.Handle][]byte
 	lockTime map[string]time.Duration // live lock files of the holder
@@ -203,6 +207,7 @@ type vHistC13 struct {
 	othersRemoved   int
 	workloadSaves   int
 	workloadBlocked int
+	staleMutations  int
 	violations      []string
 	trace           []string
 	classes         map[string]bool
@@ -235,11 +240,11 @@ var _ backend.Backend = &vStoreC13{}
 func (s *vStoreC13) Properties() backend.Properties {
 	return backend.Properties{Connections: 2, HasAtomicReplace: false}
 }
-func (s *vStoreC13) Hasher() hash.Hash               { return nil }
-func (s *vStoreC13) Close() error                    { return nil }
-func (s *vStoreC13) IsNotExist(err error) bool       { return errors.Is(err, errNotFoundC13) }
-func (s *vStoreC13) IsPermanentError(err error) bool { return errors.Is(err, errNotFoundC13) }
-func (s *vStoreC13) Delete(context.Context) error    { return errors.New("c13: not supported") }
+func (s *vStoreC13) Hasher() hash.Hash                                  { return nil }
+func (s *vStoreC13) Close() error                                       { return nil }
+func (s *vStoreC13) IsNotExist(err error) bool                          { return errors.Is(err, errNotFoundC13) }
+func (s *vStoreC13) IsPermanentError(err error) bool                    { return errors.Is(err, errNotFoundC13) }
+func (s *vStoreC13) Delete(context.Context) error                       { return errors.New("c13: not supported") }
 func (s *vStoreC13) WarmupWait(context.Context, []backend.Handle) error { return nil }
 func (s *vStoreC13) Warmup(context.Context, []backend.Handle) ([]backend.Handle, error) {
 	return nil, nil
@@ -264,6 +269,20 @@ func (s *vStoreC13) Save(ctx context.Context, hd backend.Handle, rd backend.Rewi
 		}
 		h.files[hd] = buf
 		h.workloadSaves++
+		// measurement (the harm behind invariant 1): a modification that lands while the
+		// holder's newest lock file is already stale and its context is not cancelled
+		if h.active() && len(h.writes) > 0 {
+			newest := h.writes[0].lockTime
+			for _, w := range h.writes {
+				if w.lockTime > newest {
+					newest = w.lockTime
+				}
+			}
+			if h.now()-newest > staleAfterC13 {
+				h.staleMutations++
+				h.classes["modification-landed-while-newest-lock-stale"] = true
+			}
+		}
 		return nil
 	}
 	lock, err := decodeLockC13(buf)
@@ -644,6 +663,48 @@ type vInv1C13 struct {
 	known    bool   // shape "refresh blocked in backend retry"
 	stuckOp  string // the call that was stuck at staleAt
 	stuckFor time.Duration
+	deadlock bool // shape "refresh and monitor goroutines deadlocked"
+	silence  time.Duration
+	slow     bool // shape "monitor deadline counted from the completion of a slow refresh"
+	took     time.Duration
+}
+
+// vRefreshC13 is one lock write together with what the expiry monitor learned about it.
+type vRefreshC13 struct {
+	name     string
+	start    time.Duration // Save call began (== Time field of the lock file)
+	landed   time.Duration
+	notified bool          // the refresh succeeded as a whole (replacement saved, old file removed)
+	notify   time.Duration // ... at this instant the monitor restarted its 22.5 min countdown
+}
+
+// refreshes reconstructs the refresh attempts that wrote a lock file. h.mu held.
+func (h *vHistC13) refreshes() []vRefreshC13 {
+	var out []vRefreshC13
+	for i, c := range h.calls {
+		if c.op != "save" || !c.done || c.err != nil {
+			continue
+		}
+		r := vRefreshC13{name: c.name, start: c.start, landed: c.end}
+		if len(out) == 0 {
+			// acquisition: the monitor starts counting when LockRepo returns
+			r.notified, r.notify = true, h.acquiredAt
+		} else {
+			for _, n := range h.calls[i+1:] {
+				if n.op != "remove" {
+					continue
+				}
+				// the next removal the holder issues is that of the old lock file (success)
+				// or that of the replacement itself (forced refresh given up)
+				if n.name != c.name && n.done && n.err == nil {
+					r.notified, r.notify = true, n.end
+				}
+				break
+			}
+		}
+		out = append(out, r)
+	}
+	return out
 }
 
 func runScenarioC13(t *testing.T, sc *vScenarioC13) *vResultC13 {
@@ -680,7 +741,7 @@ func runScenarioC13(t *testing.T, sc *vScenarioC13) *vResultC13 {
 			return
 		}
 		h.mu.Lock()
-		h.lockCtx = lctx
+		h.lockCtx, h.acquiredAt = lctx, h.now()
 		h.logf("LockRepo succeeded")
 		h.mu.Unlock()
 
@@ -790,10 +851,14 @@ func (h *vHistC13) checkInv1() []vInv1C13 {
 		end, how = h.finishAt, "normal finish"
 	}
 	newest := h.writes[0].lockTime
+	newestW := h.writes[0]
 	check := func(t time.Duration, how string) {
 		if t-newest > staleAfterC13 {
 			v := vInv1C13{staleAt: newest + staleAfterC13, until: t, how: how}
 			h.classifyInv1(&v)
+			if !v.known {
+				h.classifyMonitor(&v, newestW)
+			}
 			out = append(out, v)
 		}
 	}
@@ -803,7 +868,7 @@ func (h *vHistC13) checkInv1() []vInv1C13 {
 		}
 		check(w.landed, "next lock file landed")
 		if w.lockTime > newest {
-			newest = w.lockTime
+			newest, newestW = w.lockTime, w
 		}
 	}
 	check(end, how)
@@ -811,12 +876,12 @@ func (h *vHistC13) checkInv1() []vInv1C13 {
 }
 
 // classifyInv1 recognises the shape of the listed finding: at the instant the newest
-// lock file turned stale, the refresh path was inside a lock-file Save or List call in
-// the retry layer, and every request of that call up to that instant was refused or
+// lock file turned stale, the refresh path was inside a lock-file call (Save or Remove of
+// a refresh, List or Save of a forced refresh) in the retry layer, and every request of that call up to that instant was refused or
 // kept hanging by an injected fault window.
 func (h *vHistC13) classifyInv1(v *vInv1C13) {
 	for _, c := range h.calls {
-		if (c.op != "save" && c.op != "list") || c.start >= v.staleAt || (c.done && c.end < v.staleAt) {
+		if c.start >= v.staleAt || (c.done && c.end < v.staleAt) {
 			continue
 		}
 		n, bad := 0, 0
@@ -841,6 +906,55 @@ func (h *vHistC13) classifyInv1(v *vInv1C13) {
 			v.stuckFor = v.staleAt - c.start
 			return
 		}
+	}
+}
+
+// classifyMonitor recognises the two listed findings in which nothing is in progress
+// at the stale instant. Let R be the refresh that wrote the holder's newest lock file w
+// and N the instant it completed as a whole (replacement saved and old file removed);
+// only then does the expiry monitor restart its 22.5 min countdown - from N, not from
+// the lock file's time stamp.
+//
+// refresh-monitor-deadlock: R was still running when the monitor's previous deadline
+// passed (the monitor is then blocked handing over a forced-refresh request), R
+// succeeded (the refresh goroutine is then blocked reporting that), and from N on the
+// holder issued no lock-file request at all.
+//
+// monitor-counts-from-refresh-completion: R took longer than the 7.5 min margin, so the
+// monitor's deadline N + 22.5 min lies behind the instant w turns stale, and w turned
+// stale before that deadline.
+func (h *vHistC13) classifyMonitor(v *vInv1C13, w vWriteC13) {
+	for _, c := range h.calls {
+		if c.start < v.staleAt && (!c.done || c.end >= v.staleAt) {
+			return // something is in progress at the stale instant: neither shape
+		}
+	}
+	rs := h.refreshes()
+	var r *vRefreshC13
+	prevNotify := time.Duration(0)
+	for i := range rs {
+		if rs[i].name == w.name {
+			r = &rs[i]
+			break
+		}
+		if rs[i].notified {
+			prevNotify = rs[i].notify
+		}
+	}
+	if r == nil || !r.notified {
+		return
+	}
+	silent := true
+	for _, a := range h.attempts {
+		if a.at > r.notify+time.Second && a.at < v.until {
+			silent = false
+		}
+	}
+	switch {
+	case silent && r.notify >= prevNotify+monitorDueC13 && r.notify-r.start >= time.Second:
+		v.deadlock, v.silence = true, v.until-r.notify
+	case !silent && r.notify-r.start > staleAfterC13-monitorDueC13 && v.staleAt < r.notify+monitorDueC13:
+		v.slow, v.took = true, r.notify-r.start
 	}
 }
 
@@ -959,6 +1073,21 @@ func checkResultC13(rt *rapid.T, st *verifkit.Stats, sc *vScenarioC13, res *vRes
 	for _, v := range res.inv1 {
 		desc := fmt.Sprintf("invariant 1: the holder's newest lock file turned stale at +%v but the holder went on until +%v (%s) with its context not cancelled",
 			v.staleAt, v.until, v.how)
+		if v.deadlock {
+			if !st.Known(deadlockKeyC13) {
+				fail(desc + fmt.Sprintf(" [shape %s: the refresh that wrote the newest lock file finished after the monitor deadline and the holder then issued no lock-file request for %v]",
+					deadlockKeyC13, v.silence))
+			}
+			st.Class("known:refresh-monitor-deadlock")
+			continue
+		}
+		if v.slow {
+			if !st.Known(slowKeyC13) {
+				fail(desc + fmt.Sprintf(" [shape %s: the refresh that wrote the newest lock file took %v, the monitor counts its 22.5 min from the end of that refresh]", slowKeyC13, v.took))
+			}
+			st.Class("known:monitor-counts-from-refresh-completion")
+			continue
+		}
 		if !v.known {
 			st.Class("inv1-violated/other-shape")
 			fail(desc + " - and the refresh path was NOT blocked in an injected lock-file outage at that instant")
@@ -968,5 +1097,77 @@ func checkResultC13(rt *rapid.T, st *verifkit.Stats, sc *vScenarioC13, res *vRes
 				knownKeyC13, v.stuckOp, v.stuckFor))
 		}
 		st.Class("known:refresh-blocked-in-retry/" + v.stuckOp)
+	}
+}
+
+// Fixed regression probes for the two listed findings (no drawn input).
+func TestVerifC13KnownShapeProbes(t *testing.T) {
+	baseRepoC13(t)
+	st := verifkit.Begin(t, "C13")
+	probes := []struct {
+		name string
+		sc   vScenarioC13
+	}{
+		// DESIGN section 6: lock-file saves fail from +3 min on; stale at +30 min
+		{"refresh-blocked-in-retry", vScenarioC13{Finish: 170 * time.Minute,
+			Windows: []vWindowC13{{Op: "save", Mode: "fail", From: 3 * time.Minute, Dur: 3 * time.Hour}}}},
+		// a lock-file outage from +6 min to +29 min that ends: the refresh started at ~+25 min
+		// succeeds at ~+29 min, after the monitor deadline (+5m0.2s + 22.5 min)
+		{"refresh-monitor-deadlock", vScenarioC13{Finish: 170 * time.Minute,
+			Windows: []vWindowC13{{Op: "save", Mode: "fail", From: 6 * time.Minute, Dur: 23 * time.Minute}}}},
+		// a refresh whose Save takes 9.5 min (two stuck requests), then lock saves fail for a
+		// while: the monitor counts 22.5 min from +14m27s, the lock (time +5m0.2s) is stale at +35m0.2s
+		{"monitor-counts-from-refresh-completion", vScenarioC13{Finish: 65 * time.Minute,
+			Windows: []vWindowC13{{Op: "save", Mode: "hang", From: 4 * time.Minute, Dur: 10*time.Minute + 27*time.Second},
+				{Op: "save", Mode: "fail", From: 14 * time.Minute, Dur: 17 * time.Minute}}}},
+		// same outage, but permanent errors (no retry): the refresh path is never starved
+		{"permanent-failure-control", vScenarioC13{Finish: 170 * time.Minute,
+			Windows: []vWindowC13{{Op: "save", Mode: "permfail", From: 3 * time.Minute, Dur: 3 * time.Hour}}}},
+	}
+	for _, p := range probes {
+		sc := p.sc
+		res := runScenarioC13(t, &sc)
+		h := res.h
+		if res.acquireErr != nil {
+			t.Fatalf("probe %s: LockRepo failed: %v", p.name, res.acquireErr)
+		}
+		outcome := "inv1-holds"
+		for _, v := range res.inv1 {
+			switch {
+			case v.known:
+				outcome = "inv1-violated:refresh-blocked-in-retry"
+			case v.deadlock:
+				outcome = "inv1-violated:refresh-monitor-deadlock"
+			case v.slow:
+				outcome = "inv1-violated:monitor-counts-from-refresh-completion"
+			default:
+				outcome = "inv1-violated:other"
+			}
+		}
+		end := "finish"
+		if h.cancelled {
+			end = fmt.Sprintf("cancelled at +%v", h.cancelAt.Round(time.Minute))
+		}
+		st.Case(p.name, "probe:"+p.name+":"+outcome)
+		st.Note("probe "+p.name, outcome+", "+end)
+		fail := func(msg string) {
+			t.Fatalf("C13 violated (probe %s): %s\nscenario: %+v\ntrace:\n%s", p.name, msg, sc, strings.Join(h.trace, "\n"))
+		}
+		if len(h.violations) > 0 {
+			fail(strings.Join(h.violations, "\n"))
+		}
+		for _, v := range res.inv1 {
+			desc := fmt.Sprintf("invariant 1: the holder's newest lock file turned stale at +%v but the holder went on until +%v (%s) with its context not cancelled", v.staleAt, v.until, v.how)
+			switch {
+			case v.known && st.Known(knownKeyC13):
+				st.Class("known:refresh-blocked-in-retry/" + v.stuckOp)
+			case v.deadlock && st.Known(deadlockKeyC13):
+				st.Class("known:refresh-monitor-deadlock")
+			case v.slow && st.Known(slowKeyC13):
+				st.Class("known:monitor-counts-from-refresh-completion")
+			default:
+				fail(fmt.Sprintf("%s [shape: retry=%v deadlock=%v slow=%v]", desc, v.known, v.deadlock, v.slow))
+			}
+		}
 	}
 }
